@@ -53,6 +53,13 @@ CHECKS = {
   "note": "Trusted: kernel and IPC model (dsim/kernel.py, dsim/mp.py: synchronous terminate, fork-style descriptor inheritance, asynchronous Queue.put lost on kill), reference solver, blueprint evaluator. Children share the parent's Environment (no copy-on-write isolation). No wrong-answer fault and no winner-fails-after-answering fault: the statement promises nothing there.",
   "technique": "deterministic simulation with fault injection: seeded scheduler over simulated processes/queues/pipes, virtual time, member crash/unknown/stall faults, minimisation + exact replay",
  },
+ "C14": {
+  "category": "exploration",
+  "text": "Seeded simulation of 2-4 logical clients sharing one Environment: their scripts of public-API calls (construction, typing, simplify, substitute MGS/MSS with several maps, analyses, logic detection, size with each measure, HR/SMT-LIB printing and parsing, nnf/cnf/prenex/aig, Boolean qelim, FreshSymbol, EagerModel) over a pool of formulas sharing sub-DAGs are interleaved by the tape at API-call granularity. Sequential specification: every result equals, modulo AC order / array-assignment order / fresh names, the result of the same call alone in a brand-new Environment; repeating a call without fresh symbols returns the identical object. Sampling, not proof.",
+  "design_ref": "DESIGN.md section 4 (C14)",
+  "note": "Trusted: the canonical key (dsim/canon.py) as the allowed equality; printed text is compared after re-parsing (SMT-LIB) or as a token multiset (HR), which is looser than textual equality. User symbols whose names a fresh-name template could produce are declared first in both environments.",
+  "technique": "deterministic simulation: tape-scheduled interleaving of client call scripts on shared mutable state, fresh-environment reference per call, minimisation + exact replay",
+ },
 }
 
 ORDER = ["C04", "C14", "C15", "C16", "C17", "C18", "C19"]
